@@ -65,8 +65,23 @@ def warmup():
         pass
 
 
+_RESETS = [0]
+
+
 def reset_globals(policy="fresh"):
-    """Bring serif's process-wide state to its initial value (DESIGN §2.1)."""
+    """Bring serif's process-wide state to its initial value (DESIGN §2.1).
+
+    Automatic cyclic garbage collection is switched off in the checking processes: serif objects form no reference
+    cycles, so exact reference counting decides every lifetime, and a collection that happens to run at an allocation
+    threshold would be a source of nondeterminism we do not own.  (Cycles created by harness objects such as
+    tracebacks are swept explicitly every few thousand resets; the registry is cleared at every reset, so objects that
+    linger in a cycle cannot influence a later execution.)"""
+    import gc
+    if gc.isenabled():
+        gc.disable()
+    _RESETS[0] += 1
+    if _RESETS[0] % 4000 == 0:
+        gc.collect()
     import serif
     from serif.alias_tracker import _ALIAS_TRACKER
     _ALIAS_TRACKER._registry.clear()
